@@ -287,6 +287,8 @@ class Scenario:
         self.samples = samples
         self.canary = canary
         self.product_rule = False
+        self.dyn_consts = {}        # name -> callable(values) giving the concrete constant for a replay / concrete sample
+        self.concretise = None      # z3 constraints fixing generalised constants (symbolic tables) to their actual values
         self.sym_consts = dict(sym_consts or {})
 
     def compile(self):
@@ -310,7 +312,10 @@ def _to_py(val, kind):
 def replay_script(scen, values, label):
     """stand-alone script: exit 1 iff the *reported* claim fails (or the reported exception type is raised)"""
     vals = ", ".join(f"{k}={v!r}" for k, v in values.items())
-    consts = ", ".join(f"{k}={v!r}" for k, v in scen.consts.items())
+    cc = dict(scen.consts)
+    for name, fn in scen.dyn_consts.items():
+        cc[name] = fn(values)
+    consts = ", ".join(f"{k}={v!r}" for k, v in cc.items())
     allv = ", ".join(x for x in (vals, consts) if x)
     return (
         "import sys, warnings\nwarnings.filterwarnings('ignore')\n"
@@ -407,7 +412,14 @@ def run_scenarios(scens, patches_cm, timeout_ms=10000, max_paths=4000, wall_s=12
                             r, m = eng.prove(pc, claim.t, extra=ax, nonlinear=claim.nonlinear)
                         if r == 'unsat':
                             out['discharged'] += 1
+                        elif r == 'sat' and scen.concretise and eng.satisfiable(pc, extra=list(ax) + list(scen.concretise) + [z3.Not(claim.t)])[0] == 'unsat':
+                            # holds for the actual table values, fails only for other values of the generalised constants:
+                            # not observable, recorded as latent and not reported
+                            out['discharged'] += 1
+                            out.setdefault('latent', []).append(f"{scen.key}/{label}")
                         elif r == 'sat':
+                            if scen.concretise:
+                                ax = list(ax) + list(scen.concretise)
                             cnts = [vars_[n].t for n, k in scen.inputs.items() if k == 'count']
                             dom = [z3.Or(*[c == i for i in range(1, 9)]) for c in cnts]
                             tries = []
@@ -448,8 +460,11 @@ def run_scenarios(scens, patches_cm, timeout_ms=10000, max_paths=4000, wall_s=12
                 vals = _sample(scen, rnd)
                 if vals is None:
                     continue
+                cc = dict(scen.consts)
+                for name, fn in scen.dyn_consts.items():
+                    cc[name] = fn(vals)
                 try:
-                    claims = run(V(**vals, **scen.consts), ConcreteOps())
+                    claims = run(V(**vals, **cc), ConcreteOps())
                     bad = [l for l, c in claims if not c]
                 except (ZeroDivisionError, OverflowError):
                     continue        # sample outside the assumed domain (divisor != 0, finite results)
